@@ -586,6 +586,7 @@ type runner struct {
 	confirming, dropped bool
 	// a descriptor that does not describe the stored content was passed (outside the property)
 	unjudged bool
+	autogc   bool // current value of Store.AutoGC
 }
 
 const gcWatchdog = 300 * time.Second
@@ -635,7 +636,7 @@ func (r *runner) open() error {
 		return err
 	}
 	s.AutoSaveIndex = r.h.AutoSave
-	s.AutoGC = r.h.AutoGC
+	s.AutoGC = r.autogc
 	r.store = s
 	return nil
 }
@@ -755,6 +756,10 @@ func (r *runner) exec(op string) string {
 		return "ok"
 	case 'C':
 		return r.checkpoint()
+	case 'A': // assignment to the public field
+		r.autogc = arg == "1"
+		r.store.AutoGC = r.autogc
+		return "ok"
 	case 'W', 'M': // Tag with a descriptor of the wrong size / another media type: not judged
 		f := strings.Split(arg, ":")
 		k, _ := strconv.Atoi(f[0])
@@ -1114,7 +1119,7 @@ func (r *runner) generate(rnd *common.Rand, nops int) {
 				if p, ok := pickPresent(); ok && rnd.Chance(4, 5) {
 					k = p
 				}
-				if r.h.AutoGC {
+				if r.autogc {
 					for _, p := range g.Preds(k) {
 						if g.Nodes[p].Subject == k && r.present(p) {
 							run.Count("delete:autogc-with-stored-referrer")
@@ -1137,7 +1142,13 @@ func (r *runner) generate(rnd *common.Rand, nops int) {
 			if r.synced {
 				r.do("R")
 			}
-		case c < 91 && rnd.Chance(1, 6): // caller inconsistency (not judged, must not crash or hang)
+		case c < 91 && rnd.Chance(1, 3): // AutoGC is a public field
+			if r.autogc {
+				r.do("A0")
+			} else {
+				r.do("A1")
+			}
+		case c < 91 && rnd.Chance(1, 4): // caller inconsistency (not judged, must not crash or hang)
 			if p, ok := pickPresent(); ok {
 				r.do(fmt.Sprintf("%s%d:%d", common.Pick(rnd, []string{"W", "M"}), p, rnd.Intn(len(tagPool))))
 			}
@@ -1240,7 +1251,7 @@ func newRunner(h *history) *runner {
 	for _, b := range h.Bad {
 		w.bad[b] = true
 	}
-	r := &runner{h: h, w: w, dir: filepath.Join(dir, "layout"), synced: true, truth: true,
+	r := &runner{h: h, w: w, autogc: h.AutoGC, dir: filepath.Join(dir, "layout"), synced: true, truth: true,
 		id: run.NewID(), failed: map[string]bool{}}
 	if err := r.open(); err != nil {
 		panic(err)
@@ -1394,7 +1405,7 @@ var coverageFloor = []string{
 	"tar:style0", "tar:style1", "tar:style2", "tar:style3", "tar:style4", "tar:style5", "tar:style6(", "tar:style7(",
 	"tar:style8(", "tar:style9(", "tar:style10(", "tar:sparse-member-archived", "tar:blob-name-over-100-bytes",
 	"op:P:ok", "op:P:exists", "op:P:badcontent", "op:T:ok", "op:T:notfound", "op:T:invalidref", "op:U:ok", "op:U:notfound",
-	"op:V:invalidref", "op:D:ok", "op:D:notfound", "op:G:ok", "op:S:ok", "op:R:ok", "op:I:ok",
+	"op:V:invalidref", "op:A:ok", "op:D:ok", "op:D:notfound", "op:G:ok", "op:S:ok", "op:R:ok", "op:I:ok",
 	"op:Xv", "op:Xi", "op:Xa", "op:Xf", "tag:foreign-digest-reference", "tag:invalid-utf8-reference",
 	"gc:with-untagged-subject-chains", "delete:autogc-with-stored-referrer",
 	"tarfs:format0", "tarfs:format1", "tarfs:format2", "unjudged:tag-with-inconsistent-descriptor",
